@@ -3,7 +3,7 @@ CONSTANTS
   MaxMut = 2
   MaxOps = 3
   Fields = {"idx_lenword", "idx_count", "idx_namelen", "idx_noffs", "idx_offset", "idx_eof", "idx_size", "block_type", "block_id", "content_len", "start_namelen", "eof_hash", "cfoot_lenword", "cfoot_count", "cfoot_size", "cfoot_last", "cblock_data", "truncate", "many_foreign"}
-  Ops = {"open", "list", "readall", "hash", "linear", "repair", "drop"}
+  Ops = {"open", "list", "readall", "hash", "linear", "linearsub", "repair", "drop"}
   Focus = {"cblock_data"}
 INVARIANTS TypeOK Replay
 VIEW View
